@@ -620,3 +620,80 @@ def _mk_encodings(family):
 
 for _f in ('xml', 'soap11', 'soap12'):
     _mk_encodings(_f)
+
+
+# ------------------------------------------------------------------------------------------ several SOAP headers
+
+def _mk_headers(family):
+    @obligation('C01.headers.%s' % family, targets=['spyne.protocol.soap.soap11:Soap11.deserialize',
+                                                    'spyne.protocol.soap.soap11:Soap11.serialize'],
+                bounded="a method with three declared input and output header classes; every subset of them sent, in "
+                        "declaration order and reversed",
+                desc="each SOAP header block that is sent reaches the function at the position of its declared class "
+                     "(absent ones are None), whatever subset and order the request uses; the output headers the function "
+                     "sets are sent back")
+    def ob(c):
+        import itertools
+
+        class H3(ComplexModel):
+            __namespace__ = TNS
+            n = Integer
+        got = []
+
+        class HSvc(ServiceBase):
+            @rpc(Integer, _returns=Integer, _in_header=(Hdr, Hdr2, H3), _out_header=(Hdr, Hdr2, H3))
+            def m(ctx, i):
+                got.append(ctx.in_header)
+                ctx.out_header = ctx.in_header
+                return i
+        P = Soap11 if family == 'soap11' else Soap12
+        app = Application([HSvc], TNS, name='VApp', in_protocol=P(validator=c.choose(['soft', None, 'lxml'], 'validator')),
+                          out_protocol=P())
+        subsets = [s_ for r in range(4) for s_ in itertools.combinations(['Hdr', 'Hdr2', 'H3'], r)]
+        sent = c.choose(subsets, 'headers_sent')
+        order = c.choose(['declared', 'reversed'], 'order')
+        blocks = {'Hdr': '<tns:Hdr><tns:token>tok</tns:token><tns:seq>9</tns:seq></tns:Hdr>',
+                  'Hdr2': '<tns:Hdr2><tns:trace>tr</tns:trace></tns:Hdr2>', 'H3': '<tns:H3><tns:n>3</tns:n></tns:H3>'}
+        names = list(sent) if order == 'declared' else list(reversed(sent))
+        ns = SOAP11_NS if family == 'soap11' else SOAP12_NS
+        data = ('<e:Envelope xmlns:e="%s" xmlns:tns="%s"><e:Header>%s</e:Header><e:Body><tns:m><tns:i>5</tns:i></tns:m></e:Body>'
+                '</e:Envelope>' % (ns, TNS, ''.join(blocks[n] for n in names))).encode()
+        env = {'REQUEST_METHOD': 'POST', 'PATH_INFO': '/', 'QUERY_STRING': '', 'SERVER_NAME': 'h', 'SERVER_PORT': '80',
+               'wsgi.url_scheme': 'http', 'wsgi.input': io.BytesIO(data), 'CONTENT_TYPE': 'text/xml',
+               'CONTENT_LENGTH': str(len(data))}
+        seen = []
+
+        def sr(status, headers, exc_info=None):
+            seen.append(status)
+        sr._pyvc_native = True
+        out = c.run(WsgiApplication(app), env, sr)
+        c.check('callable_returns', out.returned, detail=repr(out))
+        if not out.returned:
+            return
+        chunks = []
+        c.run(lambda: chunks.extend(list(out.value)))
+        resp = b''.join(chunks)
+        c.check('status_200', bool(seen) and seen[0].startswith('200'), detail=(seen, resp[:300]))
+        c.check('function_invoked_exactly_once', len(got) == 1, detail=len(got))
+        if len(got) != 1:
+            return
+        ih = got[0]
+        ih = list(ih) if isinstance(ih, (list, tuple)) else [ih, None, None]
+        want = [('tok', 9) if 'Hdr' in sent else None, 'tr' if 'Hdr2' in sent else None, 3 if 'H3' in sent else None]
+        have = [(ih[0].token, ih[0].seq) if ih[0] is not None else None, ih[1].trace if ih[1] is not None else None,
+                ih[2].n if ih[2] is not None else None]
+        c.check('each_header_at_its_declared_position', have == want, detail=(have, want))
+        if seen and seen[0].startswith('200'):
+            h = etree.fromstring(resp).find('{%s}Header' % ns)
+            vals = {}
+            for e in (h if h is not None else []):
+                vals[e.tag.split('}')[1]] = [x.text for x in e]
+            wantv = {'Hdr': ['tok', '9'], 'Hdr2': ['tr'], 'H3': ['3']}
+            # a header the function left at None may be omitted or sent empty; one that it set carries its values
+            c.check('output_headers_sent_back', all(vals.get(n) == wantv[n] for n in sent) and all(
+                not any(vals.get(n) or []) for n in wantv if n not in sent), detail=(vals, sorted(sent)))
+    return ob
+
+
+for _f in ('soap11', 'soap12'):
+    _mk_headers(_f)
